@@ -7,7 +7,7 @@ import (
 )
 
 func genReq(r *hx.Rand, id uint64) TopReq {
-	q := TopReq{ID: id, Src: r.Intn(3), Addr: r.U64n(1<<20) &^ 3, PID: uint32(r.Intn(3)), TB: r.Intn(80)}
+	q := TopReq{ID: id, Src: r.Intn(3), Addr: 64 * (id - 900), PID: uint32(r.Intn(3)), TB: r.Intn(80)}
 	if r.Chance(3, 5) {
 		q.Kind = "r"
 		q.Size = uint64(1 + r.Intn(64))
@@ -42,16 +42,17 @@ func genCase(r *hx.Rand) input {
 	// the generator tracks an estimate of drained shadows only to aim K at plausible indexes
 	sent, drained := 0, 0
 	var pending []int
-	dupIDs := r.Chance(1, 8)
+	withCtl := r.Chance(1, 2)  // control commands (Pause/Drain/Enable/Reset/unsupported) during the run
+	withCkpt := r.Chance(1, 3) // checkpoint round trips of the component during the run
+	ctlID := uint64(5000)
+	var later [][2]uint64 // (tick, id) of Enable commands scheduled after a Pause/Drain
+	in.CCap = r.Range(1, 3)
 	for t := 0; t < nticks; t++ {
 		st := Instant{DrainTop: r.Pick(1, 3, 3, 2), DrainBot: r.Pick(1, 3, 3, 2)}
 		if t < nticks*2/3 {
 			k := r.Pick(2, 4, 3, 1)
 			for j := 0; j < k; j++ {
 				id++
-				if dupIDs && r.Chance(1, 3) {
-					id--
-				}
 				st.Top = append(st.Top, genReq(r, id))
 				sent++
 			}
@@ -85,6 +86,21 @@ func genCase(r *hx.Rand) input {
 			}
 			st.Bot = append(st.Bot, b)
 		}
+		st.DrainCtl = r.Pick(1, 3, 2)
+		if withCkpt && r.Chance(1, 5) {
+			st.Ckpt = true
+		}
+		if withCtl && r.Chance(1, 5) {
+			ctlID++
+			cmd := []int{0, 1, 2, 3, 3, 4, -1}[r.Pick(3, 2, 4, 3, 2, 1, 1)]
+			st.Ctl = append(st.Ctl, CtlReq{ID: ctlID, Src: r.Intn(2), Cmd: cmd})
+			if cmd == 3 && r.Chance(1, 2) {
+				pending = nil // the lower unit forgets the reset-away requests (otherwise it answers them late)
+			}
+			if (cmd == 0 || cmd == 1) && r.Chance(2, 3) { // resume a little later
+				later = append(later, [2]uint64{uint64(t + 1 + r.Intn(4)), ctlID + 100000})
+			}
+		}
 		// estimate: shadows become visible after they are drained
 		for d := 0; d < st.DrainBot && drained < sent; d++ {
 			pending = append(pending, drained)
@@ -92,8 +108,19 @@ func genCase(r *hx.Rand) input {
 		}
 		in.Script = append(in.Script, st)
 	}
-	for t := 0; t < 10; t++ {
-		st := Instant{DrainTop: 3, DrainBot: 3}
+	for _, l := range later {
+		if int(l[0]) < len(in.Script) {
+			in.Script[l[0]].Ctl = append(in.Script[l[0]].Ctl, CtlReq{ID: l[1], Src: 0, Cmd: 2})
+		}
+	}
+	for t := 0; t < 12; t++ {
+		st := Instant{DrainTop: 3, DrainBot: 3, DrainCtl: 3}
+		if t == 0 && withCtl { // make sure the pipeline runs again
+			st.Ctl = []CtlReq{{ID: 9001, Src: 1, Cmd: 2}}
+		}
+		if t == 4 && withCtl {
+			st.Ctl = []CtlReq{{ID: 9002, Src: 1, Cmd: 2}}
+		}
 		for j := 0; j < 2 && len(pending) > 0; j++ {
 			i := r.Intn(len(pending))
 			st.Bot = append(st.Bot, BotRsp{Kind: []string{"d", "w"}[r.Intn(2)], K: pending[i], Data: []byte{byte(t), byte(j)}})
@@ -106,7 +133,7 @@ func genCase(r *hx.Rand) input {
 
 func directedReverse(n int) input {
 	// n reads accepted, answered youngest first, each with its own data
-	in := input{Size: n, Width: 2, TCap: 4, BCap: 4}
+	in := input{Size: n, Width: 2, TCap: 4, BCap: 4, CCap: 2}
 	for i := 0; i < n; i += 2 {
 		st := Instant{DrainTop: 4, DrainBot: 4}
 		st.Top = append(st.Top, TopReq{Kind: "r", ID: uint64(10 + i), Src: i % 3, Addr: uint64(64 * i), Size: 4, TB: 12})
@@ -129,12 +156,50 @@ func directedReverse(n int) input {
 	return in
 }
 
+// directedReset: three requests in flight, the middle one completed (parked behind the head), a
+// Reset, three new requests; only the last is ever completed by the lower unit.
+func directedReset() input {
+	in := input{Size: 8, Width: 2, TCap: 4, BCap: 4, CCap: 2}
+	rd := func(i int) TopReq {
+		return TopReq{Kind: "r", ID: uint64(20 + i), Src: i % 3, Addr: uint64(64 * i), Size: 4, TB: 12}
+	}
+	all := Instant{DrainTop: 4, DrainBot: 4, DrainCtl: 2}
+	a := all
+	a.Top = []TopReq{rd(0), rd(1)}
+	b := all
+	b.Top = []TopReq{rd(2)}
+	c := all
+	c.Bot = []BotRsp{{Kind: "d", K: 1, Data: []byte{0xbb, 0xbb}}}
+	d := all
+	d.Ctl = []CtlReq{{ID: 7000, Src: 0, Cmd: 3}}
+	e := all
+	e.Top = []TopReq{rd(3), rd(4)}
+	f := all
+	f.Top = []TopReq{rd(5)}
+	g := all
+	g.Bot = []BotRsp{{Kind: "d", K: 3, Data: []byte{0xd0}}}
+	in.Script = []Instant{a, b, all, c, all, d, e, f, all, g, all, all, all}
+	return in
+}
+
+// directedCheckpoint: requests in flight across a checkpoint round trip, completed afterwards.
+func directedCheckpoint() input {
+	in := directedReverse(5)
+	for i := range in.Script {
+		in.Script[i].DrainCtl = 1
+		if i == 3 || i == 5 {
+			in.Script[i].Ckpt = true
+		}
+	}
+	return in
+}
+
 func gen(r *hx.Rand, tier string) []json.RawMessage {
 	n := 240
 	if tier == "thorough" {
 		n = 3000
 	}
-	out := []json.RawMessage{hx.J(directedReverse(4)), hx.J(directedReverse(7))}
+	out := []json.RawMessage{hx.J(directedReverse(4)), hx.J(directedReverse(7)), hx.J(directedReset()), hx.J(directedCheckpoint())}
 	// full Top outgoing buffer while the head is complete (ID consumed per retry)
 	bp := directedReverse(3)
 	for i := range bp.Script {
@@ -177,11 +242,15 @@ func init() {
 	hx.Register(&hx.Prop{
 		ID:      "C21",
 		Imports: "From Akita Require Import Lib.Base C21.Model C21.Exec.",
-		Rule: "ROB built by its builder (buffer size 1-16, width 1-4, Top/Bottom port buffers 1-5), 16-38 scripted ticks: 0-3 read/write " +
-			"requests per tick (three requesters, occasionally repeated IDs), a scripted lower unit that answers the drained shadow " +
+		Rule: "ROB built by its builder (buffer size 1-16, width 1-4, Top/Bottom port buffers 1-5, Control 1-3), 18-40 scripted ticks: 0-3 " +
+			"read/write requests per tick (three requesters, distinct IDs and addresses), in half of the cases control commands " +
+			"(Pause, Drain, Enable, Reset, unsupported verbs, foreign messages) at random ticks with the lower unit sometimes answering " +
+			"reset-away requests late, in a third of the cases checkpoint round trips (Component.SaveCheckpoint/LoadCheckpoint) at random " +
+			"ticks with requests in flight, a scripted lower unit that answers the drained shadow " +
 			"requests in random order after random delays (youngest-first bias, 10% answered twice, wrong-kind answers, unknown ids, " +
 			"foreign message types), 0-3 messages drained per port per tick (back-pressure on both ports). Directed: 4 and 7 requests " +
-			"answered in exactly reverse order; complete head with a full 1-slot Top buffer. " +
+			"answered in exactly reverse order; complete head with a full 1-slot Top buffer; a Reset with a completed result parked " +
+			"behind the head followed by new requests; checkpoint round trips with five requests in flight. " +
 			"Non-trivial: at least one answer overtakes an older one and >= 3 responses released. Distinct = input hash.",
 		Gen: gen, Run: run, Shrink: shrink,
 	})
